@@ -205,7 +205,29 @@ var anchorPreds = map[string]anchorPred{
 		})
 	},
 	"client/setec:fieldInfo.apply": func(p *eng.Prog, f *ssa.Function) bool {
-		return recvIs(f, setecPkg, "fieldInfo") && f.Signature.Results().Len() == 1 && resultIs(f, 0, eng.IsErrorType) && len(f.Params) >= 3
+		// the method of a field descriptor that assigns the field (the
+		// reflective Set, itself or through a helper) and is called by
+		// Fields.Apply for every field
+		if !recvIs(f, setecPkg, "fieldInfo") || f.Signature.Results().Len() != 1 || !resultIs(f, 0, eng.IsErrorType) {
+			return false
+		}
+		sets := false
+		eng.InstrsDeep(f, func(_ *ssa.Function, in ssa.Instruction) {
+			if call, ok := in.(*ssa.Call); ok {
+				if cal := call.Call.StaticCallee(); cal != nil && cal.Pkg != nil && cal.Pkg.Pkg.Path() == "reflect" && strings.HasPrefix(cal.Name(), "Set") {
+					sets = true
+				}
+			}
+		})
+		if !sets || p.CallGraph() == nil {
+			return false
+		}
+		for _, e := range p.CallGraph().CallersOf(f) {
+			if recvIs(eng.Outer(e.Caller), setecPkg, "Fields") {
+				return true
+			}
+		}
+		return false
 	},
 	"client/setec:parseFields": func(p *eng.Prog, f *ssa.Function) bool {
 		return f.Signature.Recv() == nil && f.Signature.Results().Len() == 2 && resultIs(f, 0, func(t types.Type) bool {
